@@ -3,7 +3,7 @@ from __future__ import annotations
 
 import typing as t
 
-from .rules import pairs, escape
+from .rules import pairs, escape, dispatch, gates, mutation
 
 COMMON_TRUST = [
     "CPython's ast parser",
@@ -39,12 +39,28 @@ _reg('C03', [pairs.rule_c03_r1, pairs.rule_c03_r2, pairs.rule_c03_r3],
      "induction over converter trees (sub-converters are assumed to agree). It does NOT decide full logical equivalence "
      "of the two passes (atom sets and polarity are compared, not the and/or structure), nor user-written converters.")
 
-_reg('C04', [escape.rule_c04_r1, escape.rule_c04_r2, escape.rule_c04_r3, escape.rule_c04_r4],
+_reg('C04', [escape.rule_c04_r1, escape.rule_c04_r2, escape.rule_c04_r3, escape.rule_c04_r4, pairs.rule_c03_r1],
      "Decides the structural clause of C04 by an exception-escape analysis: every may-raise source in the conversion zone "
      "(opaque user callables and stdlib parsers, data-keyed table lookups incl. unhashable keys, hashed stores with computed keys, "
      "explicit raises) is covered by a handler that turns it into ParseInterrupt / an error node, at the source or at every call site of "
      "its helper; converter construction raises only TypeError / UnsupportedAnnotation; no converter is built lazily during a pass. "
      "Not decided: exceptions raised by == / __str__ of exotic values, RecursionError / MemoryError, errors of the JSON / YAML parsers.")
+
+_reg('C02', [gates.rule_c02_r1, gates.rule_c02_r2, gates.rule_c02_r3, gates.rule_c02_r4, dispatch.rule_c01_r1],
+     "Decides the structural clauses of C02: (R1) the sequence / iterable kind predicates exclude str, bytes and bytearray and the "
+     "mapping predicate accepts mappings only; (R2) in both passes of every Converter class each structural use of the raw input "
+     "(iteration, zip, enumerate, len, indexing, .items()) is dominated in the CFG by the passing branch of such a gate, across helper "
+     "calls; (R3) the scalar acceptance table has no cross-kind cell, keeps exactly the lossless widenings int->float->complex, and has "
+     "a row for every interchange scalar; (R4) every delegation hands the sub-converter a projection of the input, never a pre-coerced "
+     "value, so strictness is inherited by every embedding context; plus the dispatch analysis (bool / str-subclass kinds). "
+     "Not decided: coercions performed inside user-supplied constructors.", exhaustive=False)
+
+_reg('C09', [mutation.rule_c09_r1, mutation.rule_c09_r2],
+     "Decides C09 for library code by a flow-sensitive freshness / alias analysis over both conversion passes, every into_data, the "
+     "generated __init__, the unchecked constructors, copy/replace and the module-level entry points: no value reachable from a data "
+     "parameter is the receiver of a mutating method, the target of an item / attribute store, del or augmented assignment (copies, "
+     "displays and comprehensions are fresh), and a raw mapping is subscripted only after a membership test (defaultdict inserts on "
+     "read). Not decided: mutation performed by user-supplied constructors, predicates and hooks (assumed pure).")
 
 # ---------------------------------------------------------------------------- MANIFEST texts
 
@@ -64,6 +80,28 @@ def _mt(pid: str, level: str, technique: str, design_ref: str, note: str) -> Non
 _STD_NOTE = ("Trusted: CPython's ast parser; the checker's catalogues (attribute roles, total builtins, mutator methods, idiom tables) "
              "printed in the evidence; user-supplied callables are opaque (may raise, assumed not to mutate arguments). Only a structural "
              "necessary condition of the property is decided, not the runtime behaviour.")
+
+_mt('C02',
+    "Static gate-dominance and table check: kind predicates, CFG dominance of every structural use of the raw input by a text-excluding "
+    "kind gate (interprocedural over self-helpers), exhaustive cell check of the scalar acceptance table, projection-only delegation, and "
+    "the dispatch analysis for bool / scalar subclasses. The matrix kind(value) x kind(target) x context factors into one gate per target "
+    "kind and delegation without pre-coercion, so deciding each gate and the delegation discipline once covers every cell.",
+    "CFG dominance (gates), table exhaustiveness, dataflow provenance of delegation arguments", "DESIGN.md section 4", _STD_NOTE)
+
+_mt('C04',
+    "Static exception-escape (effect) analysis over the conversion zone: every may-raise source (opaque callables, stdlib parsers, "
+    "data-keyed lookups incl. unhashable keys, hashed stores with computed keys, explicit raises) must be covered by a handler that turns "
+    "it into a rejection, locally or at every call site of its helper; construction raises only TypeError/UnsupportedAnnotation; no lazy "
+    "converter construction inside a pass; pass agreement (C03-R1) excludes the internal RuntimeError. Sound w.r.t. the stated source "
+    "catalogue, for all 18 classes and all paths.",
+    "interprocedural exception-escape analysis over CFG handler stacks", "DESIGN.md section 6",
+    _STD_NOTE + " fromisoformat is assumed to raise only ValueError on a str argument; total builtins (len, isinstance, tuple, ...) are assumed non-raising.")
+
+_mt('C09',
+    "Static freshness/alias analysis (flow-sensitive reaching definitions): complete for library code over both passes of all 18 "
+    "Converter classes, every into_data, the generated constructor and copy/replace helpers; includes the read-that-writes case "
+    "(subscripting a defaultdict input). A positive fixture is re-checked on every run because the expected finding count is zero.",
+    "flow-sensitive alias / freshness dataflow", "DESIGN.md section 11", _STD_NOTE)
 
 _mt('C03',
     "Static sibling-agreement check: for each of the 18 Converter classes the verdict atoms (branch literals with polarity, "
